@@ -103,8 +103,16 @@ impl ProcFacts {
             }
         }
         match &self.wait_first {
-            // the pipes reached EOF but the process ran on until the limit expired
-            Some((t, r, ovh)) if r == "None" => Some((*t, *ovh, "timed_out")),
+            // the pipes reached EOF but the process ran on until the limit expired - scrut then
+            // ends it; if it did not (the process ended on its own before any kill) it went on
+            // waiting, and is free only when its last wait returns
+            Some((t, r, ovh)) if r == "None" => {
+                let ended_by_itself = self.exit.is_some() && self.killed.map(|k| k.2 > self.exit_seq).unwrap_or(true);
+                match (&self.wait, ended_by_itself) {
+                    (Some((tw, rw, ow)), true) if rw != "None" && *tw > *t => Some((*tw, *ow, "timed_out")),
+                    _ => Some((*t, *ovh, "timed_out")),
+                }
+            }
             Some((t, _, ovh)) => Some((ce.0.max(*t), ce.1.max(*ovh), "ok")),
             None => {
                 if self.killed.map(|k| self.exit_seq > k.2).unwrap_or(false) {
